@@ -1,6 +1,785 @@
-(* C05 — lemmas about the model. *)
-From PGV Require Import Base.Value C05.Model.
-From Coq Require Import Lia.
+(* C05 — lemmas about the model: Equal is canonical-form equality (hence an equivalence that
+   ignores construction order), Hash respects it, the hash map refines an association map. *)
+From PGV Require Import Base.Value Base.ValueFacts C05.Model.
+From Coq Require Import Lia Permutation Sorted.
 
-Lemma Equal_default_refl : Equal VDefault VDefault = true.
+(* ------------------------------------------------------------------ list helpers *)
+Lemma forallb_ext_in {A} (f g : A -> bool) l :
+  (forall x, In x l -> f x = g x) -> forallb f l = forallb g l.
+Proof.
+  induction l as [|a l IH]; cbn; intros H; [reflexivity|].
+  rewrite H by auto. rewrite IH; auto.
+Qed.
+
+Lemma existsb_ext_in {A} (f g : A -> bool) l :
+  (forall x, In x l -> f x = g x) -> existsb f l = existsb g l.
+Proof.
+  induction l as [|a l IH]; cbn; intros H; [reflexivity|].
+  rewrite H by auto. rewrite IH; auto.
+Qed.
+
+Lemma first_then_ext_in {A} (p p' k k' : A -> bool) l :
+  (forall x, In x l -> p x = p' x) -> (forall x, In x l -> k x = k' x) ->
+  first_then p k l = first_then p' k' l.
+Proof.
+  induction l as [|a l IH]; cbn; intros H1 H2; [reflexivity|].
+  rewrite H1, H2 by auto. rewrite IH; auto.
+Qed.
+
+Lemma forall2b_flip {A B} (f : A -> B -> bool) (g : B -> A -> bool) xs :
+  (forall x, In x xs -> forall y, f x y = g y x) ->
+  forall ys, forall2b f xs ys = forall2b g ys xs.
+Proof.
+  induction xs as [|x xs IH]; intros H [|y ys]; cbn; try reflexivity.
+  rewrite H by (cbn; auto). rewrite IH; auto. intros; apply H; cbn; auto.
+Qed.
+
+Lemma forall2b_ext_in {A B} (f g : A -> B -> bool) xs :
+  (forall x, In x xs -> forall y, f x y = g x y) ->
+  forall ys, forall2b f xs ys = forall2b g xs ys.
+Proof.
+  induction xs as [|x xs IH]; intros H [|y ys]; cbn; try reflexivity.
+  rewrite H by (cbn; auto). rewrite IH; auto. intros; apply H; cbn; auto.
+Qed.
+
+Lemma len_eqb_sym {A B} (l : list A) (l' : list B) : len_eqb l l' = len_eqb l' l.
+Proof. unfold len_eqb. apply Nat.eqb_sym. Qed.
+
+Lemma len_eqb_true {A B} (l : list A) (l' : list B) : len_eqb l l' = true <-> List.length l = List.length l'.
+Proof. unfold len_eqb. apply Nat.eqb_eq. Qed.
+
+Lemma bytes_eqb_eq s t : bytes_eqb s t = true <-> s = t.
+Proof.
+  revert t. induction s as [|a s IH]; intros [|b t]; cbn; try (split; congruence).
+  rewrite andb_true_iff, N.eqb_eq, IH. split; [intros [-> ->]; auto|intros [= -> ->]; auto].
+Qed.
+
+Lemma bytes_eqb_sym s t : bytes_eqb s t = bytes_eqb t s.
+Proof.
+  revert t. induction s as [|a s IH]; intros [|b t]; cbn; try reflexivity.
+  rewrite N.eqb_sym, IH. reflexivity.
+Qed.
+
+Lemma eqb_sym (x y : bool) : Bool.eqb x y = Bool.eqb y x.
+Proof. destruct x, y; reflexivity. Qed.
+
+Lemma first_then_true {A} (p k : A -> bool) l :
+  first_then p k l = true -> exists e, In e l /\ p e = true /\ k e = true.
+Proof.
+  induction l as [|a l IH]; cbn; [discriminate|].
+  destruct (p a) eqn:E.
+  - intros H. exists a. auto.
+  - intros H. destruct (IH H) as (e & ? & ? & ?). exists e. auto.
+Qed.
+
+Lemma first_then_intro {A} (p k : A -> bool) l e :
+  In e l -> p e = true -> k e = true ->
+  (forall e', In e' l -> p e' = true -> e' = e) ->
+  first_then p k l = true.
+Proof.
+  induction l as [|a l IH]; cbn; [tauto|].
+  intros Hin Hp Hk Hu. destruct (p a) eqn:E.
+  - rewrite (Hu a (or_introl eq_refl) E). exact Hk.
+  - destruct Hin as [->|Hin]; [congruence|]. apply IH; auto.
+Qed.
+
+Lemma NoDup_map_inj_in {A B} (h : A -> B) l x y :
+  NoDup (map h l) -> In x l -> In y l -> h x = h y -> x = y.
+Proof.
+  induction l as [|a l IH]; cbn; [tauto|].
+  intros Hn Hx Hy E. inversion Hn as [|? ? Hna Hn']; subst.
+  destruct Hx as [->|Hx], Hy as [->|Hy]; auto.
+  - exfalso. apply Hna. rewrite E. apply in_map. auto.
+  - exfalso. apply Hna. rewrite <- E. apply in_map. auto.
+Qed.
+
+Lemma NoDup_map_fst_pairs {A B C} (h : A -> C) (h2 : B -> C) (l : list (A * B)) :
+  NoDup (map h (map fst l)) -> NoDup (map (fun p => (h (fst p), h2 (snd p))) l).
+Proof.
+  induction l as [|[a b] l IH]; cbn; intros H; [constructor|].
+  inversion H as [|? ? Hn H']; subst. constructor; auto.
+  intros Hin. apply Hn. apply in_map_iff in Hin as ([a' b'] & [= E1 E2] & Hin').
+  cbn in *. rewrite <- E1. apply in_map. apply in_map_iff. exists (a', b'). auto.
+Qed.
+
+(* ------------------------------------------------------------------ EqualR is Equal with the arguments swapped *)
+Lemma EqualR_Equal_both : forall a b, EqualR a b = Equal b a /\ Equal a b = EqualR b a.
+Proof.
+  induction a as [| x | x | x | xs IH | xs IH | kvs IH] using value_ind'; intros b; destruct b;
+    cbn; try (split; reflexivity).
+  - rewrite All_In in IH. split.
+    + f_equal; [f_equal|].
+      * apply forallb_ext_in. intros k _. apply existsb_ext_in. intros x Hx. apply IH; auto.
+      * apply forallb_ext_in. intros k Hk. apply existsb_ext_in. intros y _. apply IH; auto.
+    + f_equal; [f_equal|].
+      * apply forallb_ext_in. intros k Hk. apply existsb_ext_in. intros y _. apply IH; auto.
+      * apply forallb_ext_in. intros k _. apply existsb_ext_in. intros x Hx. apply IH; auto.
+  - rewrite All_In in IH. split.
+    + f_equal. apply forall2b_flip. intros x Hx y. apply IH; auto.
+    + f_equal. apply forall2b_flip. intros x Hx y. apply IH; auto.
+  - rewrite All_In in IH. split.
+    + f_equal. apply forallb_ext_in. intros [k' v'] _.
+      apply first_then_ext_in; intros [k v] Hp; specialize (IH _ Hp); cbn in IH; destruct IH as [Hk Hv].
+      * apply Hk.
+      * apply Hv.
+    + f_equal. apply forallb_ext_in. intros [k v] Hp. specialize (IH _ Hp); cbn in IH; destruct IH as [Hk Hv].
+      apply first_then_ext_in; intros [k' v'] _.
+      * apply Hk.
+      * apply Hv.
+Qed.
+
+Lemma EqualR_Equal a b : EqualR a b = Equal b a.
+Proof. apply EqualR_Equal_both. Qed.
+
+(* the code of each Equal method, in terms of Equal alone *)
+Lemma Equal_set xs ys :
+  Equal (VSet xs) (VSet ys) =
+  len_eqb xs ys && forallb (fun k => existsb (fun y => Equal y k) ys) xs
+                && forallb (fun k => existsb (fun x => Equal x k) xs) ys.
+Proof.
+  cbn. f_equal. f_equal. apply forallb_ext_in. intros k _. apply existsb_ext_in. intros y _.
+  apply EqualR_Equal.
+Qed.
+
+Lemma Equal_tup xs ys :
+  Equal (VTup xs) (VTup ys) = len_eqb xs ys && forall2b Equal xs ys.
 Proof. reflexivity. Qed.
+
+Definition fun_lookup_eq (g : list (value * value)) (p : value * value) : bool :=
+  first_then (fun q => Equal (fst q) (fst p)) (fun q => Equal (snd p) (snd q)) g.
+
+Lemma Equal_fun f g :
+  Equal (VFun f) (VFun g) = len_eqb f g && forallb (fun_lookup_eq g) f.
+Proof.
+  cbn. f_equal. apply forallb_ext_in. intros [k v] _. unfold fun_lookup_eq.
+  apply first_then_ext_in; intros [k' v'] _; cbn; [apply EqualR_Equal|reflexivity].
+Qed.
+
+(* ------------------------------------------------------------------ the three container cases, abstractly *)
+Lemma set_case (xs ys : list value) :
+  NoDup (map canon xs) -> NoDup (map canon ys) ->
+  (forall x y, In x xs -> In y ys -> (Equal x y = true <-> canon x = canon y)) ->
+  (forall x y, In x xs -> In y ys -> (Equal y x = true <-> canon y = canon x)) ->
+  (len_eqb xs ys && forallb (fun k => existsb (fun y => Equal y k) ys) xs
+                 && forallb (fun k => existsb (fun x => Equal x k) xs) ys = true
+   <-> (forall c, In c (map canon xs) <-> In c (map canon ys))).
+Proof.
+  intros Nx Ny H1 H2. rewrite !andb_true_iff, !forallb_forall, len_eqb_true. split.
+  - intros [[_ Hxs] Hys] c. rewrite !in_map_iff. split.
+    + intros (x & <- & Hx). specialize (Hxs x Hx). apply existsb_exists in Hxs as (y & Hy & E).
+      apply H2 in E; auto. exists y; auto.
+    + intros (y & <- & Hy). specialize (Hys y Hy). apply existsb_exists in Hys as (x & Hx & E).
+      apply H1 in E; auto. exists x; auto.
+  - intros Hc. split; [split|].
+    + rewrite <- (map_length canon xs), <- (map_length canon ys).
+      apply Nat.le_antisymm; apply NoDup_incl_length; auto; intros c; apply Hc.
+    + intros x Hx. apply existsb_exists.
+      assert (In (canon x) (map canon ys)) as Hin by (apply Hc, in_map, Hx).
+      apply in_map_iff in Hin as (y & E & Hy). exists y. split; auto. apply H2; auto.
+    + intros y Hy. apply existsb_exists.
+      assert (In (canon y) (map canon xs)) as Hin by (apply Hc, in_map, Hy).
+      apply in_map_iff in Hin as (x & E & Hx). exists x. split; auto. apply H1; auto.
+Qed.
+
+Lemma tup_case (eq : value -> value -> bool) (xs ys : list value) :
+  (forall x y, In x xs -> In y ys -> (eq x y = true <-> canon x = canon y)) ->
+  (len_eqb xs ys && forall2b eq xs ys = true <-> map canon xs = map canon ys).
+Proof.
+  revert ys. induction xs as [|x xs IH]; intros [|y ys] H; cbn; try (split; congruence).
+  unfold len_eqb in *. cbn.
+  specialize (IH ys (fun a b Ha Hb => H a b (or_intror Ha) (or_intror Hb))).
+  rewrite andb_true_iff in *. rewrite andb_true_iff.
+  pose proof (H x y (or_introl eq_refl) (or_introl eq_refl)) as Hxy.
+  split.
+  - intros [Hl [E Hr]]. f_equal; [apply Hxy; auto|apply IH; auto].
+  - intros [= E1 E2]. apply IH in E2 as [? ?]. split; auto. split; auto. apply Hxy; auto.
+Qed.
+
+Definition ckv := canon_kv canon.
+
+Lemma fun_case (f g : list (value * value))
+      (eqk eqv : value -> value -> bool) :
+  NoDup (map canon (map fst f)) -> NoDup (map canon (map fst g)) ->
+  (forall p q, In p f -> In q g -> (eqk (fst q) (fst p) = true <-> canon (fst q) = canon (fst p))) ->
+  (forall p q, In p f -> In q g -> (eqv (snd p) (snd q) = true <-> canon (snd p) = canon (snd q))) ->
+  (len_eqb f g && forallb (fun p => first_then (fun q => eqk (fst q) (fst p)) (fun q => eqv (snd p) (snd q)) g) f = true
+   <-> (forall c, In c (map ckv f) <-> In c (map ckv g))).
+Proof.
+  intros Nf Ng Hk Hv.
+  assert (Nf' : NoDup (map ckv f)).
+  { erewrite map_ext; [apply (NoDup_map_fst_pairs canon canon f Nf)|]. intros []; reflexivity. }
+  assert (Ng' : NoDup (map ckv g)).
+  { erewrite map_ext; [apply (NoDup_map_fst_pairs canon canon g Ng)|]. intros []; reflexivity. }
+  rewrite andb_true_iff, forallb_forall, len_eqb_true. split.
+  - intros [Hl Hf].
+    assert (Hincl : incl (map ckv f) (map ckv g)).
+    { intros c Hc. apply in_map_iff in Hc as (p & <- & Hp).
+      specialize (Hf p Hp). apply first_then_true in Hf as (q & Hq & E1 & E2).
+      apply Hk in E1; auto. apply Hv in E2; auto. apply in_map_iff. exists q. split; auto.
+      destruct p, q; cbn in *. congruence. }
+    intros c. split; [apply Hincl|].
+    apply NoDup_length_incl; auto. rewrite !map_length. lia.
+  - intros Hc. split.
+    + rewrite <- (map_length ckv f), <- (map_length ckv g).
+      apply Nat.le_antisymm; apply NoDup_incl_length; auto; intros c; apply Hc.
+    + intros p Hp.
+      assert (In (ckv p) (map ckv g)) as Hin by (apply Hc, in_map, Hp).
+      apply in_map_iff in Hin as (q & E & Hq).
+      assert (canon (fst q) = canon (fst p) /\ canon (snd q) = canon (snd p)) as [Ek Ev].
+      { destruct p, q; cbn in *. unfold ckv in E. cbn in E. split; congruence. }
+      apply (first_then_intro _ _ g q); auto.
+      * apply Hk; auto.
+      * apply Hv; auto.
+      * intros q' Hq' E'. apply Hk in E'; auto.
+        apply (NoDup_map_inj_in (fun r => canon (fst r)) g); auto.
+        -- rewrite <- map_map. exact Ng.
+        -- cbn. congruence.
+Qed.
+
+(* ------------------------------------------------------------------ Equal_spec *)
+Lemma rep_ok_set xs : rep_ok (VSet xs) <-> All rep_ok xs /\ NoDup (map canon xs).
+Proof. reflexivity. Qed.
+Lemma rep_ok_fun kvs : rep_ok (VFun kvs) <-> All (kvP rep_ok) kvs /\ NoDup (map canon (map fst kvs)).
+Proof. reflexivity. Qed.
+
+Lemma Equal_spec_both : forall a b, rep_ok a -> rep_ok b ->
+  (Equal a b = true <-> canon a = canon b) /\ (Equal b a = true <-> canon b = canon a).
+Proof.
+  induction a as [| x | x | x | xs IH | xs IH | kvs IH] using value_ind'; intros b Ra Rb; destruct b;
+    try (cbn; split; split; congruence).
+  - cbn. rewrite !eqb_true_iff. split; split; congruence.
+  - cbn. rewrite !Z.eqb_eq. split; split; congruence.
+  - cbn. rewrite !bytes_eqb_eq. split; split; congruence.
+  - (* sets *)
+    rename xs0 into ys. rewrite All_In in IH. destruct Ra as [Rxs Nx], Rb as [Rys Ny].
+    rewrite All_In in Rxs, Rys.
+    rewrite !Equal_set, !canon_set_eq. split.
+    + apply set_case; auto; intros x y Hx Hy.
+      * exact (proj1 (IH x Hx y (Rxs x Hx) (Rys y Hy))).
+      * exact (proj2 (IH x Hx y (Rxs x Hx) (Rys y Hy))).
+    + rewrite len_eqb_sym.
+      rewrite <- andb_assoc, (andb_comm (forallb _ ys)), andb_assoc.
+      rewrite (set_case xs ys); auto.
+      * split; intros H c; specialize (H c); tauto.
+      * intros x y Hx Hy. exact (proj1 (IH x Hx y (Rxs x Hx) (Rys y Hy))).
+      * intros x y Hx Hy. exact (proj2 (IH x Hx y (Rxs x Hx) (Rys y Hy))).
+  - (* tuples *)
+    rename xs0 into ys. rewrite All_In in IH. cbn in Ra, Rb. rewrite All_In in Ra, Rb.
+    rewrite !Equal_tup, !canon_tup_eq. split.
+    + apply tup_case. intros x y Hx Hy. exact (proj1 (IH x Hx y (Ra x Hx) (Rb y Hy))).
+    + rewrite len_eqb_sym.
+      rewrite (forall2b_flip Equal (fun x y => Equal y x) ys) by reflexivity.
+      rewrite (tup_case (fun x y => Equal y x) xs ys).
+      * split; congruence.
+      * intros x y Hx Hy. destruct (IH x Hx y (Ra x Hx) (Rb y Hy)) as [_ H2].
+        rewrite H2. split; congruence.
+  - (* functions *)
+    rename kvs0 into g. rewrite All_In in IH. destruct Ra as [Rf Nf], Rb as [Rg Ng].
+    rewrite All_In in Rf, Rg.
+    assert (Rf' : forall p, In p kvs -> rep_ok (fst p) /\ rep_ok (snd p)) by (intros p Hp; apply kvP_iff; auto).
+    assert (Rg' : forall p, In p g -> rep_ok (fst p) /\ rep_ok (snd p)) by (intros p Hp; apply kvP_iff; auto).
+    assert (IH' : forall p, In p kvs -> (forall b, rep_ok b ->
+              (Equal (fst p) b = true <-> canon (fst p) = canon b) /\ (Equal b (fst p) = true <-> canon b = canon (fst p)))
+              /\ (forall b, rep_ok b ->
+              (Equal (snd p) b = true <-> canon (snd p) = canon b) /\ (Equal b (snd p) = true <-> canon b = canon (snd p)))).
+    { intros p Hp. specialize (IH p Hp). apply kvP_iff in IH. destruct IH as [I1 I2].
+      destruct (Rf' p Hp). split; intros b Hb; [apply I1|apply I2]; auto. }
+    rewrite !Equal_fun, !canon_fun_eq. unfold fun_lookup_eq. split.
+    + apply (fun_case kvs g Equal Equal); auto.
+      * intros p q Hp Hq. apply (proj1 (IH' p Hp)). apply Rg'; auto.
+      * intros p q Hp Hq. apply (proj2 (IH' p Hp)). apply Rg'; auto.
+    + rewrite (fun_case g kvs Equal Equal); auto.
+      * unfold ckv. split; intros H c; specialize (H c); tauto.
+      * intros q p Hq Hp. apply (proj1 (IH' p Hp)). apply Rg'; auto.
+      * intros q p Hq Hp. apply (proj2 (IH' p Hp)). apply Rg'; auto.
+Qed.
+
+Theorem Equal_spec_lemma a b : rep_ok a -> rep_ok b -> (Equal a b = true <-> canon a = canon b).
+Proof. intros Ra Rb. apply Equal_spec_both; auto. Qed.
+
+(* ------------------------------------------------------------------ equivalence *)
+Lemma Equal_refl a : rep_ok a -> Equal a a = true.
+Proof. intros R. apply Equal_spec_lemma; auto. Qed.
+
+Lemma Equal_sym a b : rep_ok a -> rep_ok b -> Equal a b = Equal b a.
+Proof.
+  intros Ra Rb. destruct (Equal a b) eqn:E1, (Equal b a) eqn:E2; auto.
+  - apply Equal_spec_lemma in E1; auto. symmetry in E1. apply Equal_spec_lemma in E1; auto. congruence.
+  - apply Equal_spec_lemma in E2; auto. symmetry in E2. apply Equal_spec_lemma in E2; auto. congruence.
+Qed.
+
+Lemma Equal_trans a b c : rep_ok a -> rep_ok b -> rep_ok c ->
+  Equal a b = true -> Equal b c = true -> Equal a c = true.
+Proof.
+  intros Ra Rb Rc H1 H2. apply Equal_spec_lemma in H1, H2; auto.
+  apply Equal_spec_lemma; auto. congruence.
+Qed.
+
+(* ------------------------------------------------------------------ rep_okb decides rep_ok *)
+Lemma pairwise_ne_NoDup xs :
+  (forall x, In x xs -> rep_ok x) ->
+  (pairwise_ne Equal xs = true <-> NoDup (map canon xs)).
+Proof.
+  induction xs as [|x xs IH]; cbn; intros R.
+  - split; [constructor|reflexivity].
+  - rewrite andb_true_iff, negb_true_iff, IH by auto. split.
+    + intros [Hx Hn]. constructor; auto. intros Hin. apply in_map_iff in Hin as (y & E & Hy).
+      assert (existsb (fun y => Equal x y) xs = true); [|congruence].
+      apply existsb_exists. exists y. split; auto. apply Equal_spec_lemma; auto.
+    + intros Hn. inversion Hn as [|? ? Hx Hn']; subst. split; auto.
+      destruct (existsb (fun y => Equal x y) xs) eqn:E; auto.
+      apply existsb_exists in E as (y & Hy & E). apply Equal_spec_lemma in E; auto.
+      exfalso. apply Hx. rewrite E. apply in_map. auto.
+Qed.
+
+Lemma forallb_All {A} (f : A -> bool) (P : A -> Prop) l :
+  (forall x, In x l -> (f x = true <-> P x)) -> (forallb f l = true <-> All P l).
+Proof.
+  intros H. rewrite forallb_forall, All_In. split; intros G x Hx; apply H; auto.
+Qed.
+
+Lemma rep_okb_spec : forall v, rep_okb v = true <-> rep_ok v.
+Proof.
+  induction v as [| x | x | x | xs IH | xs IH | kvs IH] using value_ind'; cbn; try tauto.
+  - rewrite All_In in IH. rewrite andb_true_iff, (forallb_All rep_okb rep_ok) by auto.
+    split.
+    + intros [Ha Hp]. split; auto. apply pairwise_ne_NoDup; auto. apply All_In; auto.
+    + intros [Ha Hn]. split; auto. apply pairwise_ne_NoDup; auto. apply All_In; auto.
+  - rewrite All_In in IH. apply forallb_All; auto.
+  - rewrite All_In in IH. rewrite andb_true_iff.
+    rewrite (forallb_All _ (kvP rep_ok)).
+    + split.
+      * intros [Ha Hp]. split; auto. apply pairwise_ne_NoDup; auto.
+        intros k Hk. apply in_map_iff in Hk as ([k' v'] & <- & Hp'). rewrite All_In in Ha.
+        specialize (Ha _ Hp'). cbn in *. tauto.
+      * intros [Ha Hn]. split; auto. apply pairwise_ne_NoDup; auto.
+        intros k Hk. apply in_map_iff in Hk as ([k' v'] & <- & Hp'). rewrite All_In in Ha.
+        specialize (Ha _ Hp'). cbn in *. tauto.
+    + intros [k v] Hp. specialize (IH _ Hp). cbn in *. rewrite andb_true_iff. tauto.
+Qed.
+
+(* ------------------------------------------------------------------ Hash respects Equal *)
+Lemma fold_lxor_map {A} (h : A -> N) l a :
+  fold_left (fun acc x => N.lxor acc (h x)) l a = fold_left N.lxor (map h l) a.
+Proof. revert a. induction l; cbn; auto. Qed.
+
+Lemma fold_lxor_perm l1 l2 : Permutation l1 l2 -> forall a, fold_left N.lxor l1 a = fold_left N.lxor l2 a.
+Proof.
+  induction 1; intros a; cbn; auto.
+  - f_equal. rewrite !N.lxor_assoc. f_equal. apply N.lxor_comm.
+  - rewrite IHPermutation1. apply IHPermutation2.
+Qed.
+
+Lemma fold_add_map {A} (h : A -> N) l a :
+  fold_left (fun acc x => AddUint32 acc (h x)) l a = fold_left AddUint32 (map h l) a.
+Proof. revert a. induction l; cbn; auto. Qed.
+
+Definition kv_hash (p : value * value) : N := field_hash (Hash (fst p)) (Hash (snd p)).
+
+Lemma Hash_set xs : Hash (VSet xs) = HashUint32 (fold_left N.lxor (map Hash xs) 0%N).
+Proof. cbn. rewrite fold_lxor_map. reflexivity. Qed.
+
+Lemma Hash_tup xs : Hash (VTup xs) = fold_left AddUint32 (map Hash xs) offset32.
+Proof. cbn. rewrite fold_add_map. reflexivity. Qed.
+
+Lemma Hash_fun kvs : Hash (VFun kvs) = HashUint32 (fold_left N.lxor (map kv_hash kvs) 0%N).
+Proof.
+  cbn. f_equal. rewrite <- fold_lxor_map.
+  generalize 0%N. induction kvs as [|[k v] l IH]; intros a; cbn; auto.
+Qed.
+
+Lemma Hash_canon : forall v, rep_ok v -> Hash (canon v) = Hash v.
+Proof.
+  induction v as [| x | x | x | xs IH | xs IH | kvs IH] using value_ind'; intros R; try reflexivity.
+  - destruct R as [Ra Nd]. rewrite All_In in IH, Ra.
+    change (canon (VSet xs)) with (VSet (sort_dedup vcmp (map canon xs))).
+    rewrite !Hash_set. f_equal.
+    rewrite (fold_lxor_perm _ (map Hash (map canon xs))).
+    + rewrite map_map. f_equal. apply map_ext_in. auto.
+    + apply Permutation_map, vsort_perm, Nd.
+  - cbn in R. rewrite All_In in IH, R.
+    change (canon (VTup xs)) with (VTup (map canon xs)).
+    rewrite !Hash_tup. f_equal. rewrite map_map. apply map_ext_in. auto.
+  - destruct R as [Ra Nd]. rewrite All_In in IH, Ra.
+    change (canon (VFun kvs)) with (VFun (sort_dedup kv_cmp (map (canon_kv canon) kvs))).
+    rewrite !Hash_fun. f_equal.
+    rewrite (fold_lxor_perm _ (map kv_hash (map (canon_kv canon) kvs))).
+    + rewrite map_map. f_equal. apply map_ext_in. intros [k v] Hp.
+      specialize (IH _ Hp). specialize (Ra _ Hp). cbn in *. unfold kv_hash. cbn.
+      destruct IH as [I1 I2], Ra as [R1 R2]. rewrite I1, I2; auto.
+    + apply Permutation_map, kvsort_perm.
+      erewrite map_ext; [apply (NoDup_map_fst_pairs canon canon kvs Nd)|]. intros []; reflexivity.
+Qed.
+
+Theorem Hash_Equal_lemma a b : rep_ok a -> rep_ok b -> Equal a b = true -> Hash a = Hash b.
+Proof.
+  intros Ra Rb E. apply Equal_spec_lemma in E; auto.
+  rewrite <- (Hash_canon a Ra), <- (Hash_canon b Rb). congruence.
+Qed.
+
+(* ------------------------------------------------------------------ hashmap.HashMap refines an association map *)
+Lemma veqb_sym a b : veqb a b = veqb b a.
+Proof.
+  destruct (veqb a b) eqn:E1, (veqb b a) eqn:E2; auto.
+  - apply veqb_eq in E1. subst. rewrite veqb_refl in E2. discriminate.
+  - apply veqb_eq in E2. subst. rewrite veqb_refl in E1. discriminate.
+Qed.
+
+Lemma NoDup_app_single {A} (l : list A) x : NoDup l -> ~ In x l -> NoDup (l ++ [x]).
+Proof.
+  induction 1 as [|a l Ha Hn IH]; cbn; intros Hx.
+  - constructor; auto. constructor.
+  - constructor.
+    + intros Hin. apply in_app_or in Hin as [?|[->|[]]]; auto.
+    + apply IH. tauto.
+Qed.
+
+Section HashMapProofs.
+  Context {V : Type}.
+  Notation entries := (list (value * V)).
+
+  Lemma bucket_put (m : list (N * entries)) h es h' :
+    bucket (put_bucket m h es) h' = if (h =? h')%N then Some es else bucket m h'.
+  Proof.
+    induction m as [|[h0 es0] m IH]; cbn.
+    - destruct (h =? h')%N; reflexivity.
+    - destruct (h0 =? h)%N eqn:E0; cbn.
+      + apply N.eqb_eq in E0. subst h0. destruct (h =? h')%N; reflexivity.
+      + destruct (h0 =? h')%N eqn:E1.
+        * apply N.eqb_eq in E1. subst h0. rewrite N.eqb_sym in E0. rewrite E0. reflexivity.
+        * apply IH.
+  Qed.
+
+  (* association map facts *)
+  Lemma amap_get_set (m : entries) c v c' :
+    amap_get (amap_set m c v) c' = if veqb c c' then Some v else amap_get m c'.
+  Proof.
+    induction m as [|[k0 v0] m IH]; cbn.
+    - reflexivity.
+    - destruct (veqb k0 c) eqn:E; cbn.
+      + apply veqb_eq in E. subst k0. destruct (veqb c c'); reflexivity.
+      + rewrite IH. destruct (veqb k0 c') eqn:E'; auto.
+        apply veqb_eq in E'. subst k0. rewrite veqb_sym, E. reflexivity.
+  Qed.
+
+  Lemma amap_get_None (m : entries) c : amap_get m c = None <-> ~ In c (map fst m).
+  Proof.
+    induction m as [|[k0 v0] m IH]; cbn; [tauto|].
+    destruct (veqb k0 c) eqn:E.
+    - apply veqb_eq in E. split; [discriminate|tauto].
+    - rewrite IH. split; [|tauto]. intros H [->|H']; auto. rewrite veqb_refl in E. discriminate.
+  Qed.
+
+  Lemma amap_set_absent (m : entries) c v : amap_get m c = None -> amap_set m c v = m ++ [(c, v)].
+  Proof.
+    induction m as [|[k0 v0] m IH]; cbn; auto.
+    destruct (veqb k0 c); [discriminate|]. intros H. rewrite IH; auto.
+  Qed.
+
+  Lemma amap_set_present_fst (m : entries) c v : amap_get m c <> None -> map fst (amap_set m c v) = map fst m.
+  Proof.
+    induction m as [|[k0 v0] m IH]; cbn; [congruence|].
+    destruct (veqb k0 c); cbn; auto. intros H. rewrite IH; auto.
+  Qed.
+
+  (* bucket facts *)
+  Lemma bucket_update_None (es : entries) k v :
+    bucket_update es k v = None <-> bucket_get es k = None.
+  Proof.
+    induction es as [|[k0 v0] es IH]; cbn; [tauto|].
+    destruct (Equal k0 k); [split; discriminate|].
+    destruct (bucket_update es k v); [split; [discriminate|]|tauto].
+    intros H. apply IH in H. discriminate.
+  Qed.
+
+  Lemma bucket_update_same (es es' : entries) k v k' :
+    bucket_update es k v = Some es' ->
+    (forall e, In e (map fst es) -> Equal e k' = Equal e k) ->
+    bucket_get es' k' = Some v.
+  Proof.
+    revert es'. induction es as [|[k0 v0] es IH]; cbn; intros es' H He; [discriminate|].
+    destruct (Equal k0 k) eqn:E.
+    - inversion H; subst. cbn. rewrite (He k0 (or_introl eq_refl)), E. reflexivity.
+    - destruct (bucket_update es k v) eqn:U; [|discriminate]. inversion H; subst. cbn.
+      rewrite (He k0 (or_introl eq_refl)), E. apply IH; auto.
+  Qed.
+
+  Lemma bucket_update_other (es es' : entries) k v k' :
+    bucket_update es k v = Some es' ->
+    (forall e, In e (map fst es) -> Equal e k = true -> Equal e k' = false) ->
+    bucket_get es' k' = bucket_get es k'.
+  Proof.
+    revert es'. induction es as [|[k0 v0] es IH]; cbn; intros es' H He; [discriminate|].
+    destruct (Equal k0 k) eqn:E.
+    - inversion H; subst. cbn. rewrite (He k0 (or_introl eq_refl) E). reflexivity.
+    - destruct (bucket_update es k v) eqn:U; [|discriminate]. inversion H; subst. cbn.
+      destruct (Equal k0 k'); auto.
+  Qed.
+
+  Lemma bucket_update_keys (es es' : entries) k v :
+    bucket_update es k v = Some es' -> map fst es' = map fst es.
+  Proof.
+    revert es'. induction es as [|[k0 v0] es IH]; cbn; intros es' H; [discriminate|].
+    destruct (Equal k0 k).
+    - inversion H; subst. reflexivity.
+    - destruct (bucket_update es k v); [|discriminate]. inversion H; subst. cbn. f_equal. auto.
+  Qed.
+
+  Lemma bucket_get_app (es : entries) k v k' :
+    bucket_get (es ++ [(k, v)]) k' =
+    match bucket_get es k' with Some x => Some x | None => if Equal k k' then Some v else None end.
+  Proof.
+    induction es as [|[k0 v0] es IH]; cbn; [reflexivity|].
+    destruct (Equal k0 k'); auto.
+  Qed.
+
+  Lemma bucket_get_None (es : entries) k :
+    bucket_get es k = None <-> (forall e, In e (map fst es) -> Equal e k = false).
+  Proof.
+    induction es as [|[k0 v0] es IH]; cbn; [split; [intros _ e []|auto]|].
+    destruct (Equal k0 k) eqn:E.
+    - split; [discriminate|]. intros H. rewrite (H k0) in E; auto. discriminate.
+    - rewrite IH. split; [intros H e [<-|He]; auto|auto].
+  Qed.
+
+  (* the invariant *)
+  Definition key_ok (es : entries) (hash : N) : Prop :=
+    forall e, In e (map fst es) -> Hash e = hash /\ rep_ok e.
+
+  Definition hm_inv (h : hmap V) (m : entries) : Prop :=
+    (forall hash es, bucket (hm_m h) hash = Some es -> key_ok es hash) /\
+    (forall k, rep_ok k -> hm_get h k = amap_get m (canon k)) /\
+    map canon (hm_keys h) = map fst m /\
+    NoDup (map fst m).
+
+  Lemma hm_inv_new : hm_inv hm_new [].
+  Proof.
+    split; [|split; [|split]]; cbn; auto.
+    - intros hash es; discriminate.
+    - constructor.
+  Qed.
+
+  Lemma Equal_iff_canon a b : rep_ok a -> rep_ok b -> Equal a b = true <-> canon a = canon b.
+  Proof. apply Equal_spec_lemma. Qed.
+
+  Lemma Equal_false_canon a b : rep_ok a -> rep_ok b -> Equal a b = false <-> canon a <> canon b.
+  Proof.
+    intros Ra Rb. pose proof (Equal_spec_lemma a b Ra Rb). destruct (Equal a b); split; intros; try congruence.
+    - exfalso. apply H0, H; auto.
+    - intros E. apply H in E. discriminate.
+  Qed.
+
+  Lemma Hash_canon_eq a b : rep_ok a -> rep_ok b -> canon a = canon b -> Hash a = Hash b.
+  Proof. intros Ra Rb E. rewrite <- (Hash_canon a Ra), <- (Hash_canon b Rb). congruence. Qed.
+
+  Lemma veqb_false a b : veqb a b = false <-> a <> b.
+  Proof. pose proof (veqb_eq a b). destruct (veqb a b); split; intros; try congruence. exfalso. apply H0, H; auto. intros E. apply H in E. discriminate. Qed.
+
+  Lemma hm_inv_set h m k v : rep_ok k -> hm_inv h m -> hm_inv (hm_set h k v) (amap_set m (canon k) v).
+  Proof.
+    intros Rk (IA & IB & IC & ID).
+    pose proof (IB k Rk) as Bk. unfold hm_get in Bk.
+    unfold hm_set. destruct (bucket (hm_m h) (Hash k)) as [es|] eqn:Bu.
+    - pose proof (IA _ _ Bu) as Kes.
+      destruct (bucket_update es k v) as [es'|] eqn:U.
+      + (* existing key: value replaced *)
+        assert (Hpres : amap_get m (canon k) <> None).
+        { rewrite <- Bk. intros Hn. apply (proj2 (bucket_update_None es k v)) in Hn. congruence. }
+        split; [|split; [|split]]; cbn.
+        * intros hash es0. rewrite bucket_put. destruct (Hash k =? hash)%N eqn:E.
+          -- apply N.eqb_eq in E. subst hash. intros [= <-]. unfold key_ok.
+             rewrite (bucket_update_keys _ _ _ _ U). apply Kes.
+          -- apply IA.
+        * intros k' Rk'. unfold hm_get. cbn. rewrite bucket_put, amap_get_set.
+          destruct (veqb (canon k) (canon k')) eqn:Ec.
+          -- apply veqb_eq in Ec. rewrite (Hash_canon_eq k k') by auto. rewrite N.eqb_refl.
+             apply (bucket_update_same es es' k v k'); auto.
+             intros e He. destruct (Kes e He) as [_ Re].
+             destruct (Equal e k) eqn:E1.
+             ++ apply Equal_iff_canon; auto. apply Equal_iff_canon in E1; auto. congruence.
+             ++ apply Equal_false_canon; auto. apply Equal_false_canon in E1; auto. congruence.
+          -- apply veqb_false in Ec. destruct (Hash k =? Hash k')%N eqn:Eh.
+             ++ apply N.eqb_eq in Eh. rewrite (bucket_update_other es es' k v k'); auto.
+                ** specialize (IB k' Rk'). unfold hm_get in IB. rewrite <- Eh, Bu in IB. exact IB.
+                ** intros e He E1. destruct (Kes e He) as [_ Re].
+                   apply Equal_false_canon; auto. apply Equal_iff_canon in E1; auto. congruence.
+             ++ apply (IB k' Rk').
+        * rewrite amap_set_present_fst; auto.
+        * rewrite amap_set_present_fst; auto.
+      + (* new key in an existing bucket *)
+        apply (proj1 (bucket_update_None es k v)) in U. rewrite U in Bk. symmetry in Bk.
+        rewrite (amap_set_absent _ _ _ Bk).
+        split; [|split; [|split]]; cbn.
+        * intros hash es0. rewrite bucket_put. destruct (Hash k =? hash)%N eqn:E.
+          -- apply N.eqb_eq in E. subst hash. intros [= <-]. unfold key_ok.
+             rewrite map_app. intros e He. apply in_app_or in He as [He|[<-|[]]]; auto.
+          -- apply IA.
+        * intros k' Rk'. unfold hm_get. cbn. rewrite bucket_put.
+          rewrite <- (amap_set_absent _ _ _ Bk), amap_get_set.
+          destruct (veqb (canon k) (canon k')) eqn:Ec.
+          -- apply veqb_eq in Ec. rewrite (Hash_canon_eq k k') by auto. rewrite N.eqb_refl.
+             rewrite bucket_get_app.
+             assert (bucket_get es k' = None) as ->.
+             { apply bucket_get_None. intros e He. destruct (Kes e He) as [_ Re].
+               rewrite bucket_get_None in U. specialize (U e He).
+               apply Equal_false_canon; auto. apply Equal_false_canon in U; auto. congruence. }
+             assert (Equal k k' = true) as -> by (apply Equal_iff_canon; auto). reflexivity.
+          -- apply veqb_false in Ec. destruct (Hash k =? Hash k')%N eqn:Eh.
+             ++ apply N.eqb_eq in Eh. rewrite bucket_get_app.
+                assert (Equal k k' = false) as -> by (apply Equal_false_canon; auto).
+                specialize (IB k' Rk'). unfold hm_get in IB. rewrite <- Eh, Bu in IB. rewrite <- IB.
+                destruct (bucket_get es k'); reflexivity.
+             ++ apply (IB k' Rk').
+        * rewrite !map_app. cbn. congruence.
+        * rewrite map_app. cbn. apply NoDup_app_single; auto. apply amap_get_None; auto.
+    - (* new bucket *)
+      symmetry in Bk. rewrite (amap_set_absent _ _ _ Bk).
+      split; [|split; [|split]]; cbn.
+      * intros hash es0. rewrite bucket_put. destruct (Hash k =? hash)%N eqn:E.
+        -- apply N.eqb_eq in E. subst hash. intros [= <-]. intros e [<-|[]]. auto.
+        -- apply IA.
+      * intros k' Rk'. unfold hm_get. cbn. rewrite bucket_put.
+        rewrite <- (amap_set_absent _ _ _ Bk), amap_get_set.
+        destruct (veqb (canon k) (canon k')) eqn:Ec.
+        -- apply veqb_eq in Ec. rewrite (Hash_canon_eq k k') by auto. rewrite N.eqb_refl. cbn.
+           assert (Equal k k' = true) as -> by (apply Equal_iff_canon; auto). reflexivity.
+        -- apply veqb_false in Ec. destruct (Hash k =? Hash k')%N eqn:Eh.
+           ++ apply N.eqb_eq in Eh. cbn.
+              assert (Equal k k' = false) as -> by (apply Equal_false_canon; auto).
+              specialize (IB k' Rk'). unfold hm_get in IB. rewrite <- Eh, Bu in IB. exact IB.
+           ++ apply (IB k' Rk').
+      * rewrite !map_app. cbn. congruence.
+      * rewrite map_app. cbn. apply NoDup_app_single; auto. apply amap_get_None; auto.
+  Qed.
+
+  Definition hop_ok (o : hop V) : Prop := match o with HSet k _ => rep_ok k | HClear => True end.
+
+  Lemma hm_inv_run ops : Forall hop_ok ops -> forall h m, hm_inv h m ->
+    hm_inv (fold_left hm_step ops h) (fold_left amap_step ops m).
+  Proof.
+    induction 1 as [|o ops Ho Hops IH]; intros h m I; cbn; auto.
+    apply IH. destruct o as [k v|]; cbn.
+    - apply hm_inv_set; auto.
+    - apply hm_inv_new.
+  Qed.
+
+  Theorem hashmap_refines_lemma (ops : list (hop V)) :
+    Forall hop_ok ops ->
+    (forall k, rep_ok k -> hm_get (hm_run ops) k = amap_get (amap_run ops) (canon k)) /\
+    map canon (hm_keys (hm_run ops)) = map fst (amap_run ops) /\
+    NoDup (map fst (amap_run ops)).
+  Proof.
+    intros H. destruct (hm_inv_run ops H hm_new [] hm_inv_new) as (_ & B & C & D). auto.
+  Qed.
+End HashMapProofs.
+
+(* ------------------------------------------------------------------ the causal wrapper is transparent *)
+Section cval_ind_nested.
+  Context (P : cval -> Prop).
+  Context (HD : P CDefault) (HB : forall b, P (CBool b)) (HN : forall z, P (CNum z))
+          (HS : forall s, P (CStr s))
+          (HSet : forall xs, All P xs -> P (CSet xs))
+          (HTup : forall xs, All P xs -> P (CTup xs))
+          (HFun : forall kvs, All (kvP P) kvs -> P (CFun kvs))
+          (HW : forall clk v, P v -> P (CWrap clk v)).
+
+  Fixpoint cval_ind' (c : cval) : P c :=
+    match c with
+    | CDefault => HD
+    | CBool b => HB b
+    | CNum z => HN z
+    | CStr s => HS s
+    | CSet xs =>
+        HSet xs ((fix go (l : list cval) : All P l :=
+                    match l with [] => I | x :: l' => conj (cval_ind' x) (go l') end) xs)
+    | CTup xs =>
+        HTup xs ((fix go (l : list cval) : All P l :=
+                    match l with [] => I | x :: l' => conj (cval_ind' x) (go l') end) xs)
+    | CFun kvs =>
+        HFun kvs ((fix go (l : list (cval * cval)) : All (kvP P) l :=
+                     match l with
+                     | [] => I
+                     | (k, v) :: l' => conj (conj (cval_ind' k) (cval_ind' v)) (go l')
+                     end) kvs)
+    | CWrap clk v => HW clk v (cval_ind' v)
+    end.
+End cval_ind_nested.
+
+Lemma strip_peel c : strip (peel c) = strip c.
+Proof. induction c using cval_ind'; cbn; auto. Qed.
+
+Lemma peel_nowrap c : match peel c with CWrap _ _ => False | _ => True end.
+Proof. induction c using cval_ind'; cbn; auto. Qed.
+
+Lemma forallb_map {A B} (f : B -> bool) (g : A -> B) l : forallb f (map g l) = forallb (fun x => f (g x)) l.
+Proof. induction l; cbn; congruence. Qed.
+Lemma existsb_map {A B} (f : B -> bool) (g : A -> B) l : existsb f (map g l) = existsb (fun x => f (g x)) l.
+Proof. induction l; cbn; congruence. Qed.
+Lemma first_then_map {A B} (p k : B -> bool) (g : A -> B) l :
+  first_then p k (map g l) = first_then (fun x => p (g x)) (fun x => k (g x)) l.
+Proof. induction l; cbn; auto. rewrite IHl. reflexivity. Qed.
+Lemma forall2b_map {A B A' B'} (f : A' -> B' -> bool) (g : A -> A') (g' : B -> B') l l' :
+  forall2b f (map g l) (map g' l') = forall2b (fun x y => f (g x) (g' y)) l l'.
+Proof. revert l'. induction l; intros [|y l']; cbn; auto. rewrite IHl. reflexivity. Qed.
+Lemma len_eqb_map {A B A' B'} (g : A -> A') (g' : B -> B') (l : list A) (l' : list B) :
+  len_eqb (map g l) (map g' l') = len_eqb l l'.
+Proof. unfold len_eqb. rewrite !map_length. reflexivity. Qed.
+
+Definition strip_kv (p : cval * cval) : value * value := match p with (k, v) => (strip k, strip v) end.
+
+Lemma EqualC_strip_both : forall a b,
+  EqualC a b = Equal (strip a) (strip b) /\ EqualCR a b = EqualR (strip a) (strip b).
+Proof.
+  induction a as [| x | x | x | xs IH | xs IH | kvs IH | clk a IH] using cval_ind'; intros b;
+    [ | | | | | | | cbn; apply IH ];
+    rewrite <- (strip_peel b); pose proof (peel_nowrap b) as Hn; cbn [EqualC EqualCR];
+    destruct (peel b) as [| y | y | y | ys | ys | g | ? ?] eqn:Pb; try contradiction;
+    try (cbn; split; reflexivity).
+  - (* sets *)
+    rewrite All_In in IH. cbn [strip]. cbn [Equal EqualR].
+    rewrite !len_eqb_map, !forallb_map. split.
+    + f_equal; [f_equal|].
+      * apply forallb_ext_in. intros k Hk. rewrite existsb_map. apply existsb_ext_in. intros y _. apply IH; auto.
+      * apply forallb_ext_in. intros k _. rewrite existsb_map. apply existsb_ext_in. intros x Hx. apply IH; auto.
+    + f_equal; [f_equal|].
+      * apply forallb_ext_in. intros k _. rewrite existsb_map. apply existsb_ext_in. intros x Hx. apply IH; auto.
+      * apply forallb_ext_in. intros k Hk. rewrite existsb_map. apply existsb_ext_in. intros y _. apply IH; auto.
+  - (* tuples *)
+    rewrite All_In in IH. cbn [strip]. cbn [Equal EqualR].
+    rewrite !len_eqb_map, !forall2b_map. split.
+    + f_equal. apply forall2b_ext_in. intros x Hx y. apply IH; auto.
+    + f_equal. apply forall2b_ext_in. intros x Hx y. apply IH; auto.
+  - (* functions *)
+    rewrite All_In in IH. cbn [strip]. cbn [Equal EqualR].
+    change (map (fun p : cval * cval => let (k, v) := p in (strip k, strip v))) with (map strip_kv).
+    rewrite !len_eqb_map, !forallb_map. split.
+    + f_equal. apply forallb_ext_in. intros [k v] Hp. cbn. rewrite first_then_map.
+      specialize (IH _ Hp). cbn in IH. destruct IH as [Ik Iv].
+      apply first_then_ext_in; intros [k' v'] _; cbn; [apply Ik|apply Iv].
+    + f_equal. apply forallb_ext_in. intros [k' v'] _. cbn. rewrite first_then_map.
+      apply first_then_ext_in; intros [k v] Hp; cbn; specialize (IH _ Hp); cbn in IH; destruct IH as [Ik Iv];
+        [apply Ik|apply Iv].
+Qed.
+
+Theorem EqualC_transparent_lemma a b : EqualC a b = Equal (strip a) (strip b).
+Proof. apply EqualC_strip_both. Qed.
+
+Definition kv_hashC (p : cval * cval) : N := field_hash (HashC (fst p)) (HashC (snd p)).
+
+Lemma HashC_fun kvs : HashC (CFun kvs) = HashUint32 (fold_left N.lxor (map kv_hashC kvs) 0%N).
+Proof.
+  cbn [HashC]. f_equal. rewrite <- fold_lxor_map.
+  generalize 0%N. induction kvs as [|[k v] l IH]; intros a; cbn [fold_left]; auto.
+Qed.
+
+Theorem HashC_transparent_lemma : forall c, HashC c = Hash (strip c).
+Proof.
+  induction c as [| x | x | x | xs IH | xs IH | kvs IH | clk a IH] using cval_ind';
+    cbn [HashC strip]; try reflexivity; auto.
+  - rewrite Hash_set. f_equal. rewrite All_In in IH. rewrite fold_lxor_map, map_map. f_equal. apply map_ext_in. auto.
+  - rewrite Hash_tup. rewrite All_In in IH. rewrite fold_add_map, map_map. f_equal. apply map_ext_in. auto.
+  - change (HashC (CFun kvs) = Hash (VFun (map strip_kv kvs))).
+    rewrite HashC_fun, Hash_fun. f_equal. rewrite All_In in IH. rewrite map_map. f_equal. apply map_ext_in.
+    intros [k v] Hp. specialize (IH _ Hp). cbn in IH. destruct IH as [Ik Iv].
+    unfold kv_hashC, kv_hash. cbn [fst snd strip_kv]. rewrite Ik, Iv. reflexivity.
+Qed.
